@@ -859,6 +859,70 @@ def tiny_grammars(syms=("S", "A", "a"), max_alts=2, max_len=2):
                 yield g
 
 
+def min_lengths(g):
+    """Shortest terminal string (in tokens) derivable from each nonterminal."""
+    INFL = 10**9
+    m = {n: INFL for n in g.nts}
+    best = {}
+    ch = True
+    while ch:
+        ch = False
+        for l, r in g.prods:
+            v = sum(m[x] if is_nt(x) else 1 for x in r)
+            if v < m[l]:
+                m[l] = v
+                # assigned only on strict decrease: following `best` is well founded
+                best[l] = r
+                ch = True
+    return m, best
+
+
+def rand_sentence(g, rng, target):
+    """Random sentence (list of terminal names) of roughly `target` tokens, by
+    random leftmost expansion with a length budget; None if nothing is derivable."""
+    mb = g._cache.get("minlen")
+    if mb is None:
+        mb = g._cache["minlen"] = min_lengths(g)
+    m, best = mb
+    if m[g.start] >= 10**9:
+        return None
+
+    def plen(r):
+        return sum(m[x] if is_nt(x) else 1 for x in r)
+
+    out = []
+    # explicit stack of (symbol, budget, depth)
+    st = [(g.start, target, 0)]
+    steps = 0
+    while st:
+        sym, budget, depth = st.pop()
+        steps += 1
+        if not is_nt(sym):
+            out.append(sym)
+            continue
+        alts = [r for _, r in g.by[sym] if plen(r) < 10**9]
+        fit = [r for r in alts if plen(r) <= budget]
+        if steps > 20000:
+            return None
+        if depth > 60 or steps > 4000 or not fit:
+            r = best[sym]
+        else:
+            # prefer alternatives that can use the budget (recursive ones)
+            big = [r for r in fit if any(is_nt(x) for x in r)]
+            r = rng.choice(big) if big and budget > 1 and rng.random() < 0.8 else rng.choice(fit)
+        spare = max(0, budget - plen(r))
+        # distribute the spare budget over the nonterminals of the alternative
+        nts = [i for i, x in enumerate(r) if is_nt(x)]
+        share = {i: 0 for i in nts}
+        if nts:
+            for _ in range(min(spare, 64)):
+                share[rng.choice(nts)] += max(1, spare // 64)
+        for i in reversed(range(len(r))):
+            x = r[i]
+            st.append((x, (m[x] + share[i]) if is_nt(x) else 1, depth + 1))
+    return out
+
+
 def all_strings(alphabet, maxlen, minlen=0):
     for L in range(minlen, maxlen + 1):
         for w in itertools.product(alphabet, repeat=L):
